@@ -776,6 +776,48 @@ theorem world_placement_on_registered (es : List WEvent) (db : Nat) (numShards r
     (fun a h => hw.dense db a h) a' s rs hl' hs hnew
   exact ⟨h1, h2, fun x hx => (registered_is_registration_history es x).mp (h3 x hx)⟩
 
+/-- Lag is only lag: in every reachable world the manager's live set, advanced by the node events
+that are still queued, IS the registered set; once the node watch has caught up the two coincide. -/
+theorem world_view_catches_up (es : List WEvent) :
+    let w := wrun World.init es
+    (∀ r, r ∈ (run w.st w.nodeq).live ↔ r ∈ w.store.reg) ∧
+    (w.nodeq = [] → ∀ r, r ∈ w.st.live ↔ r ∈ w.store.reg) := by
+  intro w
+  have h : ViewInv w := viewInv_run es World.init viewInv_init
+  refine ⟨h, fun hq r => ?_⟩
+  have := h r
+  rw [hq] at this
+  exact this
+
+/-- The property's second sentence for the whole system, with "alive" = REGISTERED: whenever the
+node watch has caught up (no node event queued), after any history of registration changes, late
+deliveries, creates / grows with faults, assignment deliveries and drops, every reported shard is
+online exactly when one of its replicas is registered, and an online shard's leader is a registered
+replica of that shard. -/
+theorem world_quiescent_leadership (es : List WEvent) :
+    let w := wrun World.init es
+    w.nodeq = [] →
+    ∀ db ss, (db, ss) ∈ w.st.shards → ∀ sid s, (sid, s) ∈ ss →
+      ∃ a rs, (db, a) ∈ w.st.asg ∧ (sid, rs) ∈ a ∧
+        (s.state = stOnline ↔ ∃ r, r ∈ rs ∧ r ∈ w.store.reg) ∧
+        (s.state = stOnline → ∃ l : Nat, s.leader = (l : Int) ∧ l ∈ w.store.reg ∧ l ∈ rs) ∧
+        (s.state ≠ stOnline → s.state = stOffline ∧ s.leader = -1) := by
+  intro w hq db ss hdb sid s hsid
+  have hinv : Inv w.st := (world_invariant es).2.2
+  have hv := (world_view_catches_up es).2 hq
+  have h1 := lookup_of_mem w.st.shards db ss hinv.shards_keys hdb
+  obtain ⟨a, ha, hok⟩ := hinv.db_ok db ss h1
+  have h2 := lookup_of_mem ss sid s hok.st_keys hsid
+  obtain ⟨rs, hr, hso⟩ := hok.shard_ok sid s h2
+  refine ⟨a, rs, mem_of_lookup _ _ _ ha, mem_of_lookup _ _ _ hr, ?_, ?_, hso.offline⟩
+  · rw [hso.online_iff]
+    constructor
+    · rintro ⟨r, hr1, hr2⟩; exact ⟨r, hr1, (hv r).mp hr2⟩
+    · rintro ⟨r, hr1, hr2⟩; exact ⟨r, hr1, (hv r).mpr hr2⟩
+  · intro ho
+    obtain ⟨l, k1, k2, k3⟩ := hso.leader_ok ho
+    exact ⟨l, k1, (hv l).mp k2, k3⟩
+
 /-- one step of the world keeps a persisted shard unless its database is dropped -/
 theorem wstep_keeps_shard (w : World) (hw : WInv w) (e : WEvent) (db s : Nat) (a : Assignment) (rs : List Nat)
     (hl : Map.lookup w.store.asgs db = some a) (hs : Map.lookup a s = some rs) (hne : e ≠ .drop db) :
